@@ -73,6 +73,39 @@ type Gen struct {
 	preds    map[string]*typePredT
 	topCt    *Contract // contract of the function under verification
 	dynCount, dynQueries int
+	fnValues map[string]*ssa.Function // function values taken in this proof context (term -> function)
+	trackEsc bool // the function under verification claims noalloc: escaping allocations are counted in a ghost cell
+}
+
+// ghostEscRef: the (negative, never allocated) reference whose slot 0 in the integer heap counts the allocations that can
+// outlive the function under verification (everything but its own non-escaping local variables); maintained only while a
+// function with a noalloc claim is verified
+const ghostEscRef = "(- 999979)"
+
+func (g *Gen) escNow(st *State) string { return sel(st.H["I"], ghostEscRef, "0") }
+
+// escHavoc: something that may allocate happened (a call, a loop): the counter may have grown
+func (g *Gen) escHavoc(st *State, reach string) {
+	if !g.trackEsc {
+		return
+	}
+	old := g.escNow(st)
+	n := g.havoc("esc", "Int")
+	g.assumeIf(reach, fmt.Sprintf("(>= %s %s)", n, old))
+	st.H["I"] = g.def("HI", heapSort["I"], sto(st.H["I"], ghostEscRef, "0", n))
+}
+
+func (g *Gen) escBump(st *State) {
+	if !g.trackEsc {
+		return
+	}
+	st.H["I"] = g.def("HI", heapSort["I"], sto(st.H["I"], ghostEscRef, "0", fmt.Sprintf("(+ %s 1)", g.escNow(st))))
+}
+
+// inPlace: the function under verification executes callee bodies / its own loops in place (inlines, unroll): calls through
+// function values are then resolved against the closures and function values of this proof context
+func (g *Gen) inPlace() bool {
+	return g.topCt != nil && (g.topCt.Inlines != nil || g.topCt.UnrollAll > 0)
 }
 
 type closureInfo struct {
@@ -637,6 +670,10 @@ func (a *Act) val(v ssa.Value) string {
 	case *ssa.Function:
 		t := fmt.Sprintf("(mkIface %d (bOpaque %d))", g.tag(v.Type()), g.eng.funcID(v))
 		g.eng.funcByTerm[t] = v
+		if g.fnValues == nil {
+			g.fnValues = map[string]*ssa.Function{}
+		}
+		g.fnValues[t] = v
 		return t
 	case *ssa.Builtin:
 		return "nilIface"
@@ -739,6 +776,10 @@ func (a *Act) load(st *State, t types.Type, ref, off string) string {
 
 func (a *Act) store(st *State, t types.Type, ref, off, v string) {
 	g := a.g
+	if g.trackEsc && a.curReach != "" {
+		// no program object lives at the ghost counter's reference
+		g.assumeIf(a.curReach, fmt.Sprintf("(not (= %s %s))", ref, ghostEscRef))
+	}
 	switch u := t.Underlying().(type) {
 	case *types.Struct:
 		s := g.sortOf(t)
@@ -760,6 +801,13 @@ func (a *Act) store(st *State, t types.Type, ref, off, v string) {
 }
 
 func (a *Act) alloc(st *State, base string, at allocType) string {
+	ref := a.allocLocal(st, base, at)
+	a.g.escBump(st)
+	return ref
+}
+
+// allocLocal: an allocation that cannot outlive the function (a non-escaping local variable, a ghost iterator)
+func (a *Act) allocLocal(st *State, base string, at allocType) string {
 	g := a.g
 	ref := g.def(base+"_ref", "Int", st.Next)
 	// guarded by the path condition: allocations on different paths may receive the same reference number
@@ -1533,6 +1581,14 @@ func (a *Act) loopHead(b *ssa.BasicBlock, ins []edgeIn, backs []*ssa.BasicBlock,
 		}
 		st.H[k] = g.framedHeapK(a.nm(fmt.Sprintf("loop%d", idx)), k, g.entry.H[k], g.entry.Next, g.modRefs, g.modKindsOnly, true)
 	}
+	if g.trackEsc {
+		// the ghost counter of escaping allocations: at least what it was on entry to the loop (the frames above know
+		// nothing about it, or would reset it)
+		st.H["I"] = g.def("HI", heapSort["I"], sto(st.H["I"], ghostEscRef, "0", g.escNow(stIn)))
+		if allocates {
+			g.escHavoc(st, reach)
+		}
+	}
 	headEnv := map[ssa.Value]string{}
 	for _, phi := range lc.phis {
 		n := g.havoc(a.nm(phi.Name()+"_"+phi.Comment), g.sortOf(phi.Type()))
@@ -1974,7 +2030,9 @@ func (a *Act) fireCuts(b *ssa.BasicBlock, ii int, st *State, reach string) {
 			a.firedCuts[c] = true
 			continue
 		}
-		if g.eng.curModes.Post {
+		if g.eng.curModes.Post || (a.ct != nil && len(a.ct.Loops) > 0) {
+			// (also outside post mode when the contract has loop invariants: they are obligations in every mode and may
+			// need the step)
 			terms := a.evalClauseAt(c.Cl, st, nil, nil)
 			for j, t := range terms {
 				g.oblige("cut", fmt.Sprintf("%s:%s", clauseLabel(c.Cl, 0, j), a.srcDetail(instr)), reach, t, a.pos(instr.Pos()), "assert "+c.Cl.Text)
@@ -1996,6 +2054,9 @@ func (a *Act) fireCuts(b *ssa.BasicBlock, ii int, st *State, reach string) {
 						continue
 					}
 					st.H[k] = g.framedHeapK(a.nm("cut"), k, g.entry.H[k], g.entry.Next, g.modRefs, g.modKindsOnly, true)
+				}
+				if g.trackEsc {
+					st.H["I"] = g.def("HI", heapSort["I"], sto(st.H["I"], ghostEscRef, "0", g.escNow(old)))
 				}
 				for _, t := range a.evalClauseAt(c.Cl, st, nil, nil) {
 					g.assumeIf(reach, t)
